@@ -544,6 +544,9 @@ def adversarial_programs():
         "two-intcblocks": "#pragma version 6\nintcblock 1000 1\nintcblock 5 6\ntxn Fee\nintc_0\n<=\nassert\nintc_1\nreturn",
         "intc-out-of-range": "#pragma version 6\nintcblock 1000 1\ntxn Fee\nintc 7\n<=\nassert\nintc_1\nreturn",
         "match-v8": P + 'byte "a"\nbyte "b"\ntxna ApplicationArgs 0\nmatch la lb\nerr\nla:\ntxn RekeyTo\nglobal ZeroAddress\n==\nassert\nint 1\nreturn\nlb:\nint 1\nreturn',
+        "switch-last-instruction": P + "b main\na:\nint 1\nreturn\nc:\ntxn RekeyTo\nglobal ZeroAddress\n==\nreturn\nmain:\ntxn NumAppArgs\nswitch a c",
+        "switch-last-shared-target": P + "txn NumAppArgs\nbz c\na:\nint 1\nreturn\nc:\ntxn NumAppArgs\nint 1\n-\nswitch a c a",
+        "match-last-in-subroutine": P + "callsub s\nint 1\nreturn\nla:\nint 1\nretsub\nlb:\ntxn Fee\nint 1000\n<=\nassert\nretsub\ns:\nbyte \"a\"\nbyte \"b\"\ntxna ApplicationArgs 0\nmatch la lb",
         "switch-same-target-twice": P + "txn NumAppArgs\nswitch a a\nerr\na:\nint 1\nreturn",
         "gtxn-own-index-check": P + "txn GroupIndex\nint 1\n==\nassert\ngtxn 1 RekeyTo\nglobal ZeroAddress\n==\nassert\nint 1\nreturn",
         "gtxn-other-index-check": P + "txn GroupIndex\nint 0\n==\nassert\ngtxn 1 RekeyTo\nglobal ZeroAddress\n==\nassert\nint 1\nreturn",
